@@ -72,6 +72,14 @@ def partialNearestOne (allPts : List P) (indices : List Nat) (q : P) : Option (N
   | some (i, d) => some (indices.getD i 0, d)
   | none => none
 
+/-- the scan of `farthest_pair_indices` as the Rust code writes it — for every `i`, every `j` in
+    `i+1 .. n`, keep the first strict maximum of the measure `D i j` together with its index pair,
+    starting from `(0, (0, 0))` — for an arbitrary measure `D` (the code uses the distance) -/
+def farthestScan (D : Nat → Nat → α) (n : Nat) : α × (Nat × Nat) :=
+  (List.range n).foldl (fun (st : α × (Nat × Nat)) i =>
+    (List.range' (i + 1) (n - (i + 1))).foldl (fun (st : α × (Nat × Nat)) j =>
+      if st.1 < D i j then (D i j, (i, j)) else st) st) (0, (0, 0))
+
 /-- `farthest_pair_indices`: first strict maximum over `i < j` -/
 def farthestPair (pts : List P) : (Nat × Nat) × α :=
   let n := pts.length
